@@ -21,6 +21,13 @@
 //	  <fl> = N | I+ | I- | <sign><digits>e<exp10>   with <sign> + or -, <digits> the shortest round-tripping decimal
 //	       digits d1d2..dk of strconv.FormatFloat(f, 'e', -1, 64) (value d1.d2..dk * 10^exp10), exp10 a signed decimal
 //
+// With -tokens (instead of the above) the line is
+//
+//	<hex src> TAB T TAB <tok>:<hex value>,<tok>:<hex value>,...   ("-" for no tokens / an empty value)
+//
+// the items of lexer.Tokenize(<src>) up to (excluding) EOF; <tok> is the decimal token.Token (= coq/Gen/TokenTable.v).
+// Used for quoted identifiers, which are not literals.
+//
 // Build: cd /verif/harness && go build -tags verif -o /verif/build/litdump ./cmd/litdump
 package main
 
@@ -164,8 +171,24 @@ func oracleOf(src string) string {
 	return strings.Join(parts, ",")
 }
 
+func tokensOf(src string) string {
+	items := lexer.Tokenize(strings.NewReader(src))
+	var parts []string
+	for _, it := range items {
+		if it.Token == token.EOF {
+			break
+		}
+		parts = append(parts, fmt.Sprintf("%d:%s", int(it.Token), hexOrDash([]byte(it.Value))))
+	}
+	if len(parts) == 0 {
+		return "-"
+	}
+	return strings.Join(parts, ",")
+}
+
 func main() {
 	floats := flag.Bool("floats", false, "append the strconv oracle of every NUMBER token")
+	tokens := flag.Bool("tokens", false, "print the token stream of the source text instead")
 	flag.Parse()
 	in := bufio.NewReaderSize(os.Stdin, 1<<20)
 	out := bufio.NewWriterSize(os.Stdout, 1<<20)
@@ -185,7 +208,9 @@ func main() {
 				src = b
 			}
 			if !bad {
-				if *floats {
+				if *tokens {
+					fmt.Fprintf(out, "%s\tT\t%s\n", line, tokensOf(string(src)))
+				} else if *floats {
 					fmt.Fprintf(out, "%s\t%s\t%s\n", line, explainOne(string(src)), oracleOf(string(src)))
 				} else {
 					fmt.Fprintf(out, "%s\t%s\n", line, explainOne(string(src)))
